@@ -377,6 +377,26 @@ theorem bisection_pinned_violates :
     bisect (fun lo hi => (lo + hi) / 2) (fun _ => .below) 2 0 1 = .valueError :=
   ⟨bisectPinned_spins _ _ 0 1 (by omega) rfl rfl, by decide⟩
 
+/-! ## the generators return: CIRCUS largest-sampled-disc search -/
+
+/-- the search over the radii `1, 1 + eps, …` returns at the first radius whose disc has more than 10 %
+unsampled cells, and only then: within any finite number of radii it returns iff such a radius is among
+them (on a fully sampled grid it never does — `C06.circus_disc_full_never_returns`) -/
+theorem circus_disc_returns_iff (rows cols : Nat) (mask : List Bool) (thr : List Int) :
+    (circusDisc rows cols mask thr).isSome ↔
+      ∃ t ∈ thr, 10 * (diskLe rows cols t).count true > 11 * (andL (diskLe rows cols t) mask).count true := by
+  have h := circusDisc_none_iff rows cols mask thr
+  constructor
+  · intro hs
+    apply Classical.byContradiction
+    intro hn
+    have : circusDisc rows cols mask thr = none := h.mpr (fun t ht hc => hn ⟨t, ht, hc⟩)
+    rw [this] at hs; cases hs
+  · intro ⟨t, ht, hc⟩
+    cases hr : circusDisc rows cols mask thr with
+    | some r => rfl
+    | none => exact absurd hc (h.mp hr t ht)
+
 /-! ## non-vacuity / regression examples -/
 
 example : maskShape .static [7, 9, 12, 2] = [1, 1, 9, 12, 1] := by decide
@@ -392,6 +412,13 @@ example : (assemble .gaussian2d .static [5, 5, 2] (.disc 2) true [[]]).toOption.
 example : (gaussLoop 2 [false, true, false, false] [1, 7, 0, 0, 3]).2 = 0 := by decide
 example : gaussLoop 2 [false, true, false, false] [1, 7, 0, 0, 3] = ([true, true, false, true], 0) := by decide
 example : (gaussLoop 3 [false, true, true, false] [0, 3, 1, 2, 0, 3]).2 = 1 := by decide
+/-- the hypotheses of `gaussian_loop_terminates` are satisfiable: the round-robin stream is fair -/
+example : ∃ fuel, (gaussLoop 2 [false, true, false] ((List.range fuel).map fun j => (((j % 3 : Nat)) : Int))).2 = 0 :=
+  gaussian_loop_terminates (fun j => ((j % 3 : Nat) : Int)) [false, true, false] 2
+    (fun k i hi => ⟨3 * k + i, by omega, by simp at hi; omega⟩) (by decide)
+/-- … and of `assemble_returns` / `shape_contract` -/
+example : ∃ t, assemble .fastmriMagic .multislice [3, 2, 5, 4, 2] (.lines 1) false [List.replicate 4 false, List.replicate 4 true] = .ok t :=
+  line_generator_returns _ rfl _ _ _ _ _ (by decide) (by decide) (by decide)
 example : bisect (fun lo hi => (lo + hi) / 2) (fun p => if p = 5 then .within else if p < 5 then .below else .above) 20 0 16
     = .returned 5 := by decide
 
